@@ -2,5 +2,6 @@ SPECIFICATION Spec
 CONSTANTS MaxId = 4
  R = 2
  Slack = 1
+ SplitBack = FALSE
 INVARIANTS TypeOK AtRest BoundAlways SearchSafe
 CHECK_DEADLOCK FALSE
